@@ -42,6 +42,28 @@ CHECKS = {
          "No translator tie (loops): AST fingerprint of the 7 modelled functions raises the case budget when they change."),
    technique='Coq theorems over R / any carrier + PrimFloat bit-exact model replay (correspondence)',
    ref='DESIGN.md §3 C05'),
+ 'C08': dict(
+   text=("As-coded models of Line.bbox, bezier_real_minmax (cubic closed form and the roots-oracle path), bezier_bounding_box, Arc.bbox, "
+         "Path.bbox (coq/Model/Extrema.v). Theorems over R: the reusable extreme-at-candidates lemma (EVT + interior extremum), the cubic "
+         "closed form's r1,r2 are exactly the roots of x'(t) (no root when delta<0), containment for cubics under the closed form "
+         "(unconditional) and under the explicit oracle contract otherwise, tightness for cubics/quadratics (unconditional), arc critical "
+         "angles for all three branches and k in -4..4, arc containment/tightness given start=point(0), end=point(1) (C04), path = union. "
+         "Tie: translator agreement (Line.bbox, Line.radialrange) + 120-bit bigfloat correspondence with np.roots output handed over as data; "
+         "statement evaluated on the implementation by dense sampling + refinement."),
+   note=("Trusted: kernel, py2v.py, harness, BigF evaluation; np.roots oracle contract (complete, separated) is a premise sampled by the harness. "
+         "Binary64 cancellation in the closed form is outside the R-level theorems: it is the known finding."),
+   technique='Coq theorems over R (EVT/MVT, field/nra) + translator agreement + bigfloat correspondence',
+   ref='DESIGN.md §3 C08'),
+ 'C13': dict(
+   text=("As-coded models of Line.radialrange, bezier_radialrange (candidates 0,1 + roots01 of d/dt|B-z|^2, first-extremal min/max), "
+         "Path.radialrange with indices (coq/Model/Extrema.v). Theorems over R: Line: returned (d,t) are attained and GLOBAL on [0,1] (full); "
+         "Bezier: attained (unconditional) and global under the explicit oracle-completeness + separation premises; path fold returns the "
+         "extreme over all segments and an attaining index; the de-duplication as coded is refuted (exact Qc witness where the dropped root is "
+         "the true minimiser). Tie: agreement lemma for Line.radialrange + bigfloat correspondence with recorded np.roots output; statement "
+         "evaluated on the implementation (257 samples + refinement never beat the returned extremes)."),
+   note=("Trusted: kernel, py2v.py, harness, BigF evaluation; np.roots is an oracle. Arc.radialrange is NotImplemented in the code."),
+   technique='Coq theorems over R (extreme-at-candidates, nra) + translator agreement + bigfloat correspondence',
+   ref='DESIGN.md §3 C13'),
  'C14': dict(
    text=("Green/shoelace/reversal/translation/affine-determinant/ccw-positivity theorems for the model of Path.area over a generic "
          "field (closed) and over R (RInt), arc contribution = chord polygon by definition, is_contained_by unfolding and the "
